@@ -4,12 +4,16 @@ import (
 	"encoding/json"
 	"fmt"
 	"sort"
+	"strings"
 	"sync"
+	"time"
 
+	"github.com/lidofinance/dc4bc/client/api/dto"
 	"github.com/lidofinance/dc4bc/client/types"
 	"github.com/lidofinance/dc4bc/fsm/fsm"
 	"github.com/lidofinance/dc4bc/fsm/state_machines"
 	"github.com/lidofinance/dc4bc/fsm/types/requests"
+	"github.com/lidofinance/dc4bc/storage"
 
 	"verifharness/oracle"
 	"verifharness/world"
@@ -267,6 +271,63 @@ func checkC19(c *Ctx) {
 		c.Sample(map[string]interface{}{"exploration": "node-level DKG", "n": n, "t": t, "states": st, "state_names": sortedKeys(names)})
 	})
 	c19Signing(c)
+	c19RoundIDs(c)
+}
+
+// c19RoundIDs: a round is saved under the identifier its messages carry and must be found again under
+// exactly that identifier, whatever it looks like (surrounding whitespace, case, a prefix of another
+// round's id): the same message sequence yields the same states under a plain and under an odd id, the
+// persisted round is served under that id, and sibling rounds with near-duplicate ids do not mix.
+func c19RoundIDs(c *Ctx) {
+	n, t := 3, 2
+	w, err := world.NewWorld(world.Options{N: n, T: t, Seed: c.Seed*197 + 3, NoCold: true})
+	if err != nil {
+		c.Inconclusive("round-id world: %v", err)
+		return
+	}
+	defer w.Close()
+	nd := w.Nodes[0]
+	base := fmt.Sprintf("%064x", c.Seed*0x9E3779B97F4A7C15+11)
+	ids := []string{base, base + " ", " " + base, "\t" + base + "\n", strings.ToUpper(base), base[:50], base + "0"}
+	t0 := now()
+	trace := func(id string) []string {
+		var states []string
+		msgs := []storage.Message{initMsg(w, id, n, t, t0, 0)}
+		for p := 0; p < n; p++ {
+			msgs = append(msgs, world.SignMsg(w.Nodes[p], id, EvConfirm, mkReq(requests.SignatureProposalParticipantRequest{ParticipantId: p, CreatedAt: t0.Add(time.Minute)}), ""))
+		}
+		msgs = append(msgs, world.SignMsg(w.Nodes[1], id, EvCommit, mkReq(requests.DKGProposalCommitConfirmationRequest{ParticipantId: 1, Commit: []byte("commit-1"), CreatedAt: t0.Add(time.Minute)}), ""))
+		for _, m := range msgs {
+			err := nd.Svc.ProcessMessage(m)
+			st := NodeState(nd, id)
+			states = append(states, fmt.Sprintf("%s:%v:%s", m.Event, err == nil, st))
+			// what is persisted under this id is what the service and the API hand out for this id
+			stored := RawDump(nd, id)
+			if stored != nil {
+				if d, err := nd.FSM.GetFSMDump(&dto.DkgIdDTO{DkgID: id}); err != nil || d == nil || string(d.State) != st {
+					c.Violate("C19/persisted-round-not-found-under-its-own-id", fmt.Sprintf("round id %q: persisted in %s, GetFSMDump: %v", id, st, err), map[string]interface{}{"round_id": id})
+				}
+			}
+			c.Eval(1)
+		}
+		return states
+	}
+	ref := trace(ids[0])
+	c.Distinct("round-id|plain")
+	for _, id := range ids[1:] {
+		got := trace(id)
+		c.Distinct(fmt.Sprintf("round-id|%q", trunc(id, 12)))
+		c.Add("message_sequences_under_odd_round_ids", 1)
+		if strings.Join(got, " ") != strings.Join(ref, " ") {
+			c.Violate("C19/round-under-an-odd-identifier-behaves-differently", fmt.Sprintf("round id %q: %v; plain id: %v", id, got, ref), map[string]interface{}{"round_id": id})
+		}
+	}
+	// siblings did not mix: every one of them still is where its own sequence left it
+	for _, id := range ids {
+		if st := NodeState(nd, id); !strings.HasSuffix(ref[len(ref)-1], ":"+st) {
+			c.Violate("C19/sibling-rounds-with-similar-identifiers-mixed", fmt.Sprintf("round id %q ends in %q, its own sequence left it in %q", id, st, ref[len(ref)-1]), map[string]interface{}{"round_id": id})
+		}
+	}
 }
 
 // c19Signing is filled in by the C06 exploration (restore + list over signing states).
